@@ -44,8 +44,19 @@ def needs(pid, x):
     return '\n'.join(lines[start:end]).strip()[:4000]
 
 
+# round 4: changes whose reporting instance was added after reading the sub-agent's report but BEFORE the change was run for the
+# first time; the checks as they stood when the change arrived were not run against them, so their first run is recorded as a
+# presumed miss (history 0 = presumed, not measured)
+PRESUMED_MISS = {('C02', 'h'), ('C03', 'g'), ('C03', 'h'), ('C05', 'g'), ('C05', 'h'), ('C06', 'h'), ('C08', 'h'), ('C10', 'h'), ('C13', 'h'),
+                 ('C16', 'g'), ('C16', 'h'), ('C18', 'h')}
+
+
 def main():
     res = latest()
+    for k in PRESUMED_MISS:
+        if k in res and res[k]['history'][0] == 1:
+            res[k]['history'] = [0] + res[k]['history']
+            res[k]['presumed'] = True
     os.makedirs(DST, exist_ok=True)
     matrix = []
     for (pid, x), r in sorted(res.items()):
@@ -81,7 +92,10 @@ def main():
                 'exit': r['check_exit'],
                 'detected': r['check_exit'] == 1,
                 'history_of_check_exits': r['history'],
-                'note': ('first run missed it (exit 0); the check was strengthened and then reported it' if (r['history'][0] == 0 and r['check_exit'] == 1)
+                'note': ('the instance that reports it was added after reading the report of the change and before its first run; the '
+                         'checks as they stood when the change arrived were not run against it: first run recorded as a presumed miss'
+                         if r.get('presumed') else
+                         'first run missed it (exit 0); the check was strengthened and then reported it' if (r['history'][0] == 0 and r['check_exit'] == 1)
                          else ''),
                 'output_excerpt': viol,
             },
